@@ -66,12 +66,19 @@ class UniverseLaws(base.BaseObject):
         #: edge types allowed
         self._edge_whitelist = edge_whitelist
         try:
-            self.edge_whitelist
+            checked = self.edge_whitelist
         except (ValueError, AttributeError) as exc:
             # re-raise, but with a more clear message of what's happening
             raise ValueError(
                 "Given edge_whitelist is of incorrect structure!"
             ) from exc
+
+        # keep our own copy, so that later changes to the caller's dictionary
+        # cannot change the laws
+        if checked is not None:
+            self._edge_whitelist = {
+                t: dict(linkset) for t, linkset in checked.items()
+            }
 
         #: whether or not mixed link types are allowed
         #:
